@@ -1242,6 +1242,23 @@ func c14Cases(seed int64, tier string) []*c14Case {
 		es = append(es, c14WorldEnts(g)...)
 		cases = append(cases, c14EntityMapMarshalCase(fmt.Sprintf("mentities-%d", i), es))
 	}
+	// entity ids whose (type, id) pairs differ but whose concatenations coincide: any sort key that is
+	// not injective on UIDs (Type+ID, Type+"::"+ID, String() without quoting…) ties here and falls back
+	// to map order
+	{
+		u := types.NewEntityUID
+		amb := []types.EntityUID{u("User", "s1"), u("Users", "1"), u("Team", "Lead7"), u("TeamLead", "7"), u("A", "B::C"), u("A::B", "C"),
+			u("A", "b\"::\"c"), u("N::S", "x"), u("N", "S::x"), u("a", ""), u("", "a"), u("T", "a::\"b"), u("T::a", "\"b")}
+		var es []c14Ent
+		for i, id := range amb {
+			es = append(es, c14Ent{UID: id, Parents: append([]types.EntityUID{}, amb[(i+1)%len(amb)], amb[(i+2)%len(amb)], amb[(i+5)%len(amb)], amb[(i+6)%len(amb)]),
+				Attrs: types.NewRecord(types.RecordMap{"k": types.Long(i)}), Tags: types.NewRecord(nil)})
+		}
+		cases = append(cases, c14EntityMapMarshalCase("mentities-ambiguous-uid-concat", es))
+		for i := 0; i < 6; i++ {
+			cases = append(cases, c14EntityMapMarshalCase(fmt.Sprintf("mentities-ambiguous-%d", i), es[i:i+6]))
+		}
+	}
 	var someValues []types.Value
 	for i := 0; i < pick(200, 1000); i++ {
 		var v types.Value
